@@ -32,7 +32,7 @@ pub fn drive(tr: &mut Tracer, rng: &mut StdRng, thorough: bool) {
     }
     // f64: all 2048 exponent fields (thorough) / a spread with every boundary (quick)
     let exps: Vec<u64> = if thorough { (0..=2047).collect() } else {
-        let mut v: Vec<u64> = vec![0, 1, 2, 52, 53, 1022, 1023, 1024, 1074, 1075, 1076, 1086, 1087, 1088, 2045, 2046, 2047];
+        let mut v: Vec<u64> = vec![0, 1, 2, 52, 53, 1022, 1023, 1024, 1074, 1075, 1076, 1086, 1087, 1088, 1150, 1151, 1152, 2045, 2046, 2047];   // incl. the binades where the integer leaves u64 / u128
         for _ in 0..110 { v.push(rng.gen_range(0..=2047)); }
         v
     };
@@ -45,6 +45,21 @@ pub fn drive(tr: &mut Tracer, rng: &mut StdRng, thorough: bool) {
                 float_events(tr, (s << 63) | (e << 52) | m, 64, i);
                 i += 1;
             }
+        }
+    }
+    // few-bit mantissas (short decimal expansions) over the binades around 1: values like 9.5, 0.09375, 950000000000000.5
+    for e in (1023 - 45)..=(1023 + 70u64) {
+        for top in 0..32u64 {
+            let m = top << 47;
+            float_events(tr, (e << 52) | m, 64, i);
+            i += 1;
+            if top % 4 == 1 { float_events(tr, (1 << 63) | (e << 52) | m | 1 << 20, 64, i); i += 1; }
+        }
+    }
+    for e in (127 - 30)..=(127 + 40u64) {
+        for top in 0..16u64 {
+            float_events(tr, (e << 23) | (top << 19), 32, i);
+            i += 1;
         }
     }
     // the lowest subnormals and the neighbours of the largest finite values
